@@ -1,6 +1,7 @@
 #!/bin/bash
 # tools/try_seed.sh <patch> <PROP> [tier] : run the registered check of PROP against a seeded change.
 # Default: on a private scratch worktree of /repo's HEAD with its own build directory (/repo untouched).
+# With BASE=<commit>: the scratch worktree is taken at that commit instead of HEAD (a seed superseded by a later fix).
 # With IN_REPO=1: apply to /repo itself (git -C /repo apply), run, undo (git -C /repo checkout -- .).
 P=$(readlink -f $1); PROP=$2; TIER=${3:-quick}
 V=$(cd "$(dirname "$0")/.." && pwd)
@@ -11,7 +12,7 @@ if [ "${IN_REPO:-0}" = 1 ]; then
   git -C /repo checkout -- .
 else
   SCR=$(mktemp -d ${TMPDIR:-/tmp}/bxtry.XXXXXX); R=$SCR/repo
-  git -C /repo worktree add -q --detach $R HEAD || exit 2
+  git -C /repo worktree add -q --detach $R ${BASE:-HEAD} || exit 2
   trap "git -C /repo worktree remove --force $R; rm -rf $SCR" EXIT
   (cd $R && git apply $P) || { echo "TRY: patch does not apply"; exit 2; }
   (cd $V && BXSIM_REPO=$R BXSIM_BUILD=$SCR/build BXSIM_EVIDENCE_DIR=$SCR/evidence BXSIM_REPLAY_DIR=$SCR/replays bin/check $PROP $TIER > /tmp/try_$PROP.log 2>&1); RC=$?
